@@ -8,7 +8,7 @@ counting the game history supplied with the position command and the line itself
 and that value ignores material (it is the draw score up to the engine's fixed contempt offset)."
 
 `Props/C10.lean` proves this of the counter `count_repetitions` on an abstract history.  This file links it to the search model
-(`Search.setPosition`, `Search.negamax`, `Search.goCmd`); helper files `Proofs/SearchRep{Game,Hist,Node,Go,Horizon}.lean`.
+(`Search.setPosition`, `Search.negamax`, `Search.goCmd`); helper files `Proofs/SearchRep{Game,Hist,Node,Frame,Go,Horizon,Root}.lean`.
 
 (a) **Games** (`SearchRep.playUci`, `gameBoards`, `IsLine`, `occurrences`): a root board `b0` and UCI strings `u1 … un`, all
     accepted by `San.findUci`, give the positions `b0, …, bn`.  `occurrences L p` = `p` itself plus the positions of `L` with
@@ -36,7 +36,7 @@ and that value ignores material (it is the draw score up to the engine's fixed c
     `irreversible_move_closes_window` (a pawn move or capture resets the clock, `C02.clock_reset_iff`, and no position before
     it is ever counted again).
 
-Explicit hypotheses (`GameHyp`; all decidable, evaluated on a concrete shuffle game at the end; none is an axiom):
+Explicit hypotheses (`GameHyp` for one move, `SearchRep.RootHyp` for all legal moves; all decidable, evaluated on a concrete shuffle game at the end; none is an axiom):
 * the strings are accepted; `b0` is well-formed with clock budget `n + fuelFor 1` (`half-move clock + n + 201 ≤ 4095`);
 * no 16-bit wrap of the ply counter (`ply2 b0 + n + 1 < 65536`);
 * `m` is a legal move of `bn`; `hash (make bn m) ≠ 0` (zero is the content of unwritten cells);
@@ -445,9 +445,9 @@ theorem go_depth1_game {b0 : Board} {ucis : List String} {T : List Board} (H : R
   obtain ⟨rest, hpv⟩ := VM.pv_of_mv v2
   rw [hp'] at hout hvis
   rw [scoreFromValue_congr hvis, v1, v2, v6] at hout
-  refine ⟨_, _, m, _, ?_, v3, v4, ?_⟩
-  · rw [hout, hp]
-  · rw [hpv]; rfl
+  have hout0 : (prepared s₀ b0 ucis { depth := some 1 }).out = s₀.out := by rw [hp]
+  rw [hout0] at hout
+  exact ⟨_, _, m, _, hout, v3, v4, by rw [hpv]; rfl⟩
 
 #print axioms go_depth1_game
 
@@ -572,6 +572,35 @@ example : ∃ t nodes pv',
     (by rw [show lastBoard kq kqT = kqLast from rfl, kq_aside_first]; decide)
   exact ⟨t, nodes, pv', h⟩
 
+/-- all hypotheses of `go_depth1_game`, executable -/
+def rootHypB (b0 : Board) (ucis : List String) (T : List Board) : Bool :=
+  decide (gameBoards b0 ucis = some (b0 :: T)) && wf b0 &&
+  decide (b0.halfmove + (T.length + fuelFor 1) ≤ 4095) && decide (b0.fullmove + (T.length + fuelFor 1) < 2147483648) &&
+  decide (ply2 b0 + (T.length + 1) < 65536) &&
+  (genLegal (lastBoard b0 T)).all (fun m =>
+    decide (Zobrist.hash (make (lastBoard b0 T) m) ≠ 0) && collB (b0 :: T) (make (lastBoard b0 T) m)) &&
+  decide (material (lastBoard b0 T) ≤ 64)
+
+theorem rootHyp_of_check {b0 : Board} {ucis : List String} {T : List Board} (h : rootHypB b0 ucis T = true) :
+    RootHyp b0 T ∧ gameBoards b0 ucis = some (b0 :: T) := by
+  unfold rootHypB at h
+  simp only [Bool.and_eq_true, decide_eq_true_eq, List.all_eq_true] at h
+  obtain ⟨⟨⟨⟨⟨⟨h1, h2⟩, h3⟩, h4⟩, h5⟩, h6⟩, h7⟩ := h
+  obtain ⟨hlen, _⟩ := gameBoards_shape ucis b0 _ h1
+  simp only [List.length_cons] at hlen
+  obtain ⟨hl, _, _⟩ := gameBoards_isLine ucis b0 (T.length + fuelFor 1) _ ⟨h2, h3, h4⟩ (by omega) h1
+  exact ⟨⟨hl, ⟨h2, h3, h4⟩, h5, fun m hm => (h6 m hm).1, fun m hm => coll_of_collB (h6 m hm).2, h7⟩, h1⟩
+
+theorem kq_root : RootHyp kq kqT ∧ gameBoards kq shuffle = some (kq :: kqT) := rootHyp_of_check (by decide +kernel)
+
+/-- `go depth 1` after the shuffle: the score is `repValue1`, attained by the announced move -/
+example : ∃ t nodes m pv,
+    (goCmd (setPosition initial kq shuffle) { depth := some 1 } 64).out =
+      [.bestMove (some m) (pv[1]?),
+       .info (some 1) t nodes (some (scoreFromValue (repValue1 (kq :: kqT) kqLast) kqLast)) (some pv)] ∧
+    m ∈ genLegal kqLast ∧ - childExact (kq :: kqT) kqLast m = repValue1 (kq :: kqT) kqLast ∧ pv[0]? = some m :=
+  go_depth1_game kq_root.1 kq_root.2 initial 64 (by decide) (by decide +kernel) (by decide +kernel)
+
 /-! the same by running the model -/
 
 def lastInfo (outs : List Out) : Option (Nat × Score) :=
@@ -591,7 +620,24 @@ def agrees (b0 : Board) (ucis : List String) (u : String) : Bool :=
     if 3 ≤ occurrences (b0 :: T) (make bn m) then .cp (Gen.contempt - Gen.drawScore)
     else scoreFromValue (specValueOnly 1 bn [m.uci]) bn)
 
+/-- hypotheses of `go_depth1_game` hold and `go depth 1` reports `repValue1` and a move attaining it -/
+def agreesRoot (b0 : Board) (ucis : List String) : Bool :=
+  let T := tailOf b0 ucis
+  let bn := lastBoard b0 T
+  let s := goCmd (setPosition initial b0 ucis) { depth := some 1 }
+  rootHypB b0 ucis T && !(genLegal bn).isEmpty &&
+  lastInfo s.out == some (1, scoreFromValue (repValue1 (b0 :: T) bn) bn) &&
+  (match announced s.out with
+   | some m => decide (m ∈ genLegal bn) && (- childExact (b0 :: T) bn m == repValue1 (b0 :: T) bn)
+   | none => false)
+
 #guard back.uci == "g7h8" && aside.uci == "g7f7"
+-- the whole `go depth 1`: Black, a queen down, takes the repetition (`cp 50`)
+#guard agreesRoot kq shuffle && repValue1 (kq :: kqT) kqLast == 50 &&
+  announced (goCmd (setPosition initial kq shuffle) { depth := some 1 }).out == some back
+-- White to move one ply earlier prefers the material to the repetition that `Qb3-b1` … would allow later
+#guard agreesRoot kq (shuffle.take 6) && agreesRoot kq (shuffle.take 4) && agreesRoot kq []
+#guard agreesRoot (boardOf "7k/1p6/8/8/8/8/8/KQ6 w - - 7 1") ["b1b7", "h8g8", "b7b1", "g8h8", "b1b7", "h8g8", "b7b1"]
 #guard agrees kq shuffle "g7h8" && occurrences (kq :: kqT) (make kqLast back) == 3
 #guard agrees kq shuffle "g7f7" && agrees kq shuffle "g7f6" && agrees kq shuffle "g7h6" && agrees kq shuffle "g7g8"
 -- an illegal move (`Kg7-g6` walks into the queen's diagonal) violates the hypothesis `legal`
@@ -611,5 +657,21 @@ def agrees (b0 : Board) (ucis : List String) (u : String) : Bool :=
 #guard agrees (boardOf "7k/1p6/8/8/8/8/8/KQ6 w - - 7 1") ["b1b7", "h8g8", "b7b1", "g8h8", "b1b7", "h8g8", "b7b1"] "g8h8"
 
 end Example
+
+/-
+TARGET (not proved here): the end-to-end value of `go depth d` with a game history for `d ≥ 2`.
+
+  theorem go_depth_d_game : … (goCmd (setPosition s₀ b0 ucis) { depth := some d }).out reports the minimax value of the game whose
+    nodes below the root are worth `repValue ply` when `3 ≤ occurrences (game line ++ search line) position` …
+
+What IS proved for every depth: the repetition test of every node is exactly the third-occurrence test (`node_repetition_iff`,
+`node_repetition`), and its history hypothesis is an invariant of the search (`search_never_writes_below`,
+`loop_never_writes_upto`, `node_hyp_inherited`).  What is missing for `d ≥ 2` is the transposition table: an entry stored at a
+node whose subtree contained a repetition cut-off depends on the line that led to the node, so the table invariant `TTOK` of
+`Props/C08Sim.lean` ("entries tell the truth about the minimax value of their position") has to be replaced by a
+line-dependent one; for `d = 2` no two lines of one iteration reach the same interior position, so the statement should hold
+with the depth-1 proof pattern (`Proofs/SearchRepRoot.lean`) applied at ply 1; for `d ≥ 3` transpositions at ply 2 make the
+engine's value genuinely path dependent (graph-history interaction), and a theorem would have to say so.
+-/
 
 end Inkayaku.C10Search
